@@ -107,7 +107,7 @@ class Hierarchy(_Cfg):
     def instances(self, tier):
         out = []
         for nl in (1, 2, 3) if tier == 'quick' else (1, 2, 3, 4):
-            for which in ('sweeper', 'level', 'problem', 'mixed'):
+            for which in ('sweeper', 'level', 'problem', 'mixed', 'problem_class', 'sweeper_class', 'classes_short', 'space_transfer_params'):
                 out.append(dict(nlevels=nl, which=which))
         return out
 
@@ -128,7 +128,20 @@ class Hierarchy(_Cfg):
             d['level_params']['dt'] = dts if which == 'level' else dts[: max(1, nl - 1)]  # shorter list: last repeats
         if which == 'problem':
             d['problem_params']['name'] = names
-        st = State(d=d, inst=inst, nodes=nodes, dts=dts, names=names)
+        # the longest list may also sit OUTSIDE the three parameter dictionaries: a class per level (all parameter entries scalar)
+        pcls = [type(f'Problem{l}', (AbstractProblem,), {}) for l in range(nl)]
+        scls = [type(f'Sweeper{l}', (cls_of(*GI),), {}) for l in range(nl)]
+        if which == 'problem_class':
+            d['problem_class'] = pcls
+        if which == 'sweeper_class':
+            d['sweeper_class'] = scls
+        if which == 'classes_short':  # the sweeper-class list is the longest, the problem-class list one shorter (last repeats)
+            d['sweeper_class'] = scls
+            d['problem_class'] = pcls[: max(1, nl - 1)]
+        stp = [dict(tag=f'T{l}') for l in range(nl)]
+        if which == 'space_transfer_params':
+            d['space_transfer_params'] = stp
+        st = State(d=d, inst=inst, nodes=nodes, dts=dts, names=names, pcls=pcls, scls=scls, stp=stp)
         st.call = lambda: Step(d)
         return st
 
@@ -139,6 +152,8 @@ class Hierarchy(_Cfg):
             return
         S = result
         yield 'as_many_levels_as_longest_list', len(S.levels) == nl
+        if len(S.levels) != nl:
+            return
         for l, L in enumerate(S.levels):
             yield f'level_index[{l}]', L.level_index == l
             want_nodes = st.nodes[l] if which in ('sweeper', 'mixed') else 2
@@ -150,6 +165,19 @@ class Hierarchy(_Cfg):
             else:
                 yield f'dt_shared[{l}]', seq(L.params.dt, st.dts[0])
             yield f'problem_name[{l}]', L.prob.name == (st.names[l] if which == 'problem' else 'shared')
+            if which == 'problem_class':
+                yield f'problem_class[{l}]', type(L.prob) is st.pcls[l]
+            elif which == 'classes_short':
+                yield f'problem_class_last_repeats[{l}]', type(L.prob) is st.pcls[min(l, max(1, nl - 1) - 1)]
+            else:
+                yield f'problem_class_shared[{l}]', type(L.prob) is AbstractProblem
+            if which in ('sweeper_class', 'classes_short'):
+                yield f'sweeper_class[{l}]', type(L.sweep) is st.scls[l]
+            else:
+                yield f'sweeper_class_shared[{l}]', type(L.sweep) is cls_of(*GI)
+            if which == 'space_transfer_params' and l > 0:
+                T = S._Step__transfer_dict.get((S.levels[l - 1], S.levels[l]))
+                yield f'space_transfer_params_of_pair[{l - 1},{l}]', T is not None and T.__self__.space_transfer.params.get('tag') == f'T{l}'
         yield 'transfer_between_all_adjacent_levels', all(True for _ in range(nl))
         if nl > 1:
             try:
@@ -319,6 +347,9 @@ class ControllerGuards(_Cfg):
 
 
 # ------------------------------------------------------------------------------------------------ frozen classes
+UNDECLARED_NAMES = ('_z', '__z', '__z__', 'z_', '_x', 'x_', 'X', 'xx', '_', '__', 'x1', '_isfrozen', '__isfrozen', '_A__isfrozen', 'Attrs', 'é', 'x ', '')
+
+
 class Frozen(_Cfg):
     name = 'FrozenClass.__setattr__/__getattr__/add_attr/get'
     target = (HELP, 'FrozenClass.__setattr__')
@@ -326,8 +357,11 @@ class Frozen(_Cfg):
     expected_exceptions = (TypeError, AttributeError)
 
     def instances(self, tier):
-        return [dict(case=c) for c in ('set_declared_in_init', 'set_undeclared', 'set_added', 'get_added_unset', 'get_unknown',
-                                      'set_before_freeze', 'add_twice_silently', 'add_twice_strict', 'get_method', 'separate_attrs_per_subclass')]
+        out = [dict(case=c) for c in ('set_declared_in_init', 'set_undeclared', 'set_added', 'get_added_unset', 'get_unknown',
+                                     'set_before_freeze', 'add_twice_silently', 'add_twice_strict', 'get_method', 'separate_attrs_per_subclass')]
+        # the rejection must not depend on the SHAPE of the undeclared name (private-looking, dunder-looking, near misses of declared ones ...)
+        out += [dict(case='set_undeclared', attr=a) for a in UNDECLARED_NAMES]
+        return out
 
     def build(self, inst, mk):
         FC = cls_of(HELP, 'FrozenClass')
@@ -351,7 +385,7 @@ class Frozen(_Cfg):
                 a.x = st.v
                 return a.x
             if c == 'set_undeclared':
-                a.z = st.v
+                setattr(a, inst.get('attr', 'z'), st.v)
                 return 'stored'
             if c == 'set_added':
                 A.add_attr('z')
@@ -581,6 +615,76 @@ class UnknownNamesAtFirstUse(_Cfg):
     def canary(self, st, old, result, exc):
         yield 'canary:opposite', (exc is None) == (st.inst['guess'] == 'bogus')
 
+
+def bounded_frozen_objects_of_a_controller(tier, seed):
+    """every frozen status / parameter object of a REAL controller (2 steps, 2 levels: step and level status and params, sweeper and
+    controller params where frozen) rejects assignments to undeclared names of many shapes with TypeError and keeps accepting
+    its declared names; names that exist already (methods, class attributes) are skipped because they are declared"""
+    import random
+    import string
+    from pySDC.helpers.pysdc_helper import FrozenClass
+    from pySDC.implementations.controller_classes.controller_nonMPI import controller_nonMPI
+    from contracts.ctrl import LinearSpaceTransfer
+    from vc.native import ConcreteLinearProblem
+
+    rnd = random.Random(seed + 5)
+    d = dict(problem_class=ConcreteLinearProblem, problem_params=dict(kind='full'), sweeper_class=cls_of(*GI), sweeper_params=dict(num_nodes=[3, 2], quad_type='RADAU-RIGHT'),
+             level_params=dict(dt=0.1), step_params=dict(maxiter=3), space_transfer_class=LinearSpaceTransfer)
+    c = controller_nonMPI(num_procs=2, controller_params=dict(logger_level=40, dump_setup=False), description=d)
+    objs = {}
+    for p, S in enumerate(c.MS):
+        objs[f'MS[{p}]'] = S
+        objs[f'MS[{p}].status'] = S.status
+        objs[f'MS[{p}].params'] = S.params
+        for l, L in enumerate(S.levels):
+            objs[f'MS[{p}].levels[{l}]'] = L
+            objs[f'MS[{p}].levels[{l}].status'] = L.status
+            objs[f'MS[{p}].levels[{l}].params'] = L.params
+            objs[f'MS[{p}].levels[{l}].sweep.params'] = L.sweep.params
+    objs['controller.params'] = c.params
+    objs = {k: o for k, o in objs.items() if isinstance(o, FrozenClass)}
+    fails = dict(undeclared_name_rejected_with_TypeError=[], declared_name_still_assignable=[], rejected_assignment_leaves_no_attribute=[])
+    cases = 0
+    n_random = 40 if tier == 'quick' else 400
+    for where, o in objs.items():
+        declared = [k for k in list(vars(o)) + list(type(o).attrs) if not k.endswith('__isfrozen')]
+        names = set(UNDECLARED_NAMES)
+        for k in declared[:12]:
+            names |= {'_' + k, k + '_', '__' + k, k.upper(), k[:-1], k + k, k.capitalize()}
+        alphabet = string.ascii_letters + string.digits + '_'
+        for _ in range(n_random):
+            names.add(rnd.choice(['', '_', '__', '_' + type(o).__name__ + '__']) + ''.join(rnd.choice(alphabet) for _ in range(rnd.randint(1, 9))))
+        for nm in sorted(names):
+            if hasattr(o, nm) or nm in type(o).attrs:
+                continue  # declared (or an existing member): assignable by design
+            cases += 1
+            try:
+                setattr(o, nm, 1.0)
+                fails['undeclared_name_rejected_with_TypeError'].append(dict(object=where, name=nm, outcome='stored silently'))
+                try:
+                    object.__delattr__(o, nm)
+                except Exception:
+                    pass
+            except TypeError:
+                if nm in vars(o):
+                    fails['rejected_assignment_leaves_no_attribute'].append(dict(object=where, name=nm))
+            except Exception as e:
+                fails['undeclared_name_rejected_with_TypeError'].append(dict(object=where, name=nm, outcome=repr(e)[:120]))
+        for k in declared:
+            cases += 1
+            try:
+                old = getattr(o, k)
+                setattr(o, k, old)
+            except Exception as e:
+                fails['declared_name_still_assignable'].append(dict(object=where, name=k, outcome=repr(e)[:120]))
+    obs = [dict(name=f'bounded:{k}', status='proved' if not bad else 'refuted', backend='native-run', seconds=0.0, kind='bounded', size=0, model=dict(first=bad[:6]) if bad else None,
+                reason='', path=0, counted=False) for k, bad in fails.items()]
+    return dict(contract='bounded:frozen_objects_of_a_controller', prop='C20', inst={}, label='bounded', kind='bounded', obligations=obs, canaries=[], paths=1, status='ok',
+                bounded=dict(what='assignments of undeclared / declared names to every frozen object of a real 2-step 2-level controller', bound=f'{len(objs)} objects; fixed name family, near misses of up to 12 declared names per object, {n_random} random identifiers per object', cases=cases,
+                             failures=sum(1 for o in obs if o['status'] != 'proved')))
+
+
+EXTRAS = [bounded_frozen_objects_of_a_controller]
 
 CONTRACTS = [DictToList, Hierarchy, Rejections, ControllerGuards, Frozen, ReadOnlyParams, ConvergenceControllerSetup, UnknownNamesAtFirstUse]
 UNDECIDED = ['ParaDiag option conflicts are checked under C15', 'unknown residual_type: C03.compute_residual.unknown_type_rejected; unknown predict_type / stage: C07.predict / C07.pfasst']
